@@ -52,6 +52,16 @@ def gen(tier, rng):
     # (blocking transport; the tokio client has no deadline of its own)
     for t in {"quick": [300], "search": [200, 300], "thorough": [200, 300, 400]}[tier]:
         cases.append(f"late\t{t}")
+    # a send the client itself refuses (non-ASCII address or 8-bit content without the extension) leaves its pooled connection
+    # clean: nothing was written, the next send finds it in step (sequential transport model)
+    from tools.props import c20 as _c20
+    from tools import smtpgen as _sg
+    h = _c20.happy(1)
+    reuse = h + [_sg.step(b"250 ok\r\n")] + h[2:] + [_sg.step(b"250 ok\r\n")] + h[2:]
+    for client in "sa":
+        for to, msg in ((["\u00fcser@example.com"], b"hello\r\n"), (["x@y.z", "\u7528\u6237@example.jp"], b"hello\r\n"), (["x@y.z"], b"caf\xc3\xa9\r\n")):
+            for nsends in (2, 3):
+                cases.append(_c20.pool_case(client, 300, 1, False, nsends, "a@b.c", to, msg, [reuse, h]))
     if tier == "thorough":
         for kind in "s":
             for (senders, sends) in [(2, 3), (4, 1)]:
@@ -66,7 +76,7 @@ def timing_dependent(case):
 
 
 def nontrivial(case):
-    if case.startswith("late"):
+    if case.startswith("late") or case.startswith("pool"):
         return True
     toks = case.split("\t")[8].split(",")
     s = [t for t in toks if t.startswith("s")]
@@ -83,6 +93,9 @@ def distribution(cases):
         f = c.split("\t")
         if f[0] == "late":
             d["late_reply"] = d.get("late_reply", 0) + 1
+            continue
+        if f[0] == "pool":
+            d["refused_by_the_client"] = d.get("refused_by_the_client", 0) + 1
             continue
         d["sync" if f[1] == "s" else "tokio"] += 1
         d["with_faults"] += f[7] != "-"
